@@ -957,6 +957,8 @@ class History:
                             self.problem("corr", "a compaction step that found nothing issued store calls")
                         continue
                     if t[0] != "ok" and fault is not None and res != "PANIC":
+                        if "mani=0" in self.model.cmd("FLAGS"):
+                            raise StopLockstep(resume=n)        # a poisoned manifest refuses the edit: the model does not follow
                         self.problem("prop", "after an injected error a later compaction failed: %s" % res, replay=self.fault_rp(fault, si, n))
                         raise Problem()
                     if t[0] != "ok":
@@ -1009,6 +1011,10 @@ class History:
                                                 " ; ".join(",".join(ent_str(e) for e in self.cache[nm][0]) for nm in outs))
                     self.pendc[(si, n)] = pc
                     m = self.model.cmd(pc)
+                    if m.startswith("ERROR outside"):
+                        # the model's manifest is poisoned, the store's compaction went through
+                        self.problem("prop", "a compaction edited a manifest that an earlier error had poisoned: %s" % res[:60], replay=self.fault_rp(fault, si, n) if fault else None)
+                        raise Problem()
                     if not self.model_accepts("compact", "session %d op %d" % (si, n), si, n):
                         raise Problem()
                     if in_e != out_e:
@@ -1344,8 +1350,12 @@ class History:
         for k, ts, v in pr["ents"]:
             groups.setdefault(ts, {})[k] = v
         legit = [dict(b) for b in acked] + ([dict(undecided[1])] if undecided else [])
+        # (a garbage collection can have dropped part of an acknowledged batch: a recovered group that is
+        # part of a legitimate batch is that batch's remainder, whatever failed write it happens to equal)
+        def remainder_of_legit(g):
+            return any(all(k in L and L[k] == v for k, v in g.items()) for L in legit)
         for b in failed:
-            if dict(b) in groups.values() and dict(b) not in legit:
+            if dict(b) in groups.values() and not remainder_of_legit(dict(b)):
                 self.problem("prop", "after an injected %s and a reopen the store holds a write that had returned an error" % errno,
                              batch={hx(k): (None if v is None else hx(v)[:40]) for k, v in b}, replay=rp)
                 return
